@@ -10,25 +10,29 @@ namespace Confuse
 
 def isDep (c : DiagCls) : Bool := c == .deprecatedDrop || c == .deprecatedKeep
 
-def nd (m : PM) : List Diag := m.diags.filter (fun d => !isDep d.cls)
+/-- the diagnostics delivered so far whose class is not in `P` (with `P := isDep`: everything but
+deprecation notices; with `P := fun _ => false`: everything) -/
+def nd (P : DiagCls → Bool) (m : PM) : List Diag := m.diags.filter (fun d => !P d.cls)
 
-def Quiet (m m' : PM) : Prop := m'.status ≠ .rejected → nd m' = nd m
+def Quiet (P : DiagCls → Bool) (m m' : PM) : Prop := m'.status ≠ .rejected → nd P m' = nd P m
 
-@[simp] theorem nd_addCalls (m : PM) (cs : List CbCall) : nd (m.addCalls cs) = nd m := rfl
-@[simp] theorem nd_addDiags_nil (m : PM) (f : Frame) : nd (m.addDiags f []) = nd m := by simp [nd, PM.addDiags]
+variable {P : DiagCls → Bool}
 
-theorem nd_addDiags_dep (m : PM) (f : Frame) (cs : List DiagCls) (h : ∀ c ∈ cs, isDep c = true) : nd (m.addDiags f cs) = nd m := by
+@[simp] theorem nd_addCalls (m : PM) (cs : List CbCall) : nd P (m.addCalls cs) = nd P m := rfl
+@[simp] theorem nd_addDiags_nil (m : PM) (f : Frame) : nd P (m.addDiags f []) = nd P m := by simp [nd, PM.addDiags]
+
+theorem nd_addDiags_dep (m : PM) (f : Frame) (cs : List DiagCls) (h : ∀ c ∈ cs, P c = true) : nd P (m.addDiags f cs) = nd P m := by
   simp only [nd, PM.addDiags, List.filter_append]
-  have : List.filter (fun d => !isDep d.cls) (List.map f.diag cs).reverse = [] := by
+  have : List.filter (fun d => !P d.cls) (List.map f.diag cs).reverse = [] := by
     simp only [List.filter_eq_nil_iff, List.mem_reverse, List.mem_map]
     rintro d ⟨c, hc, rfl⟩
     simp [Frame.diag, h c hc]
   rw [this]; rfl
 
-theorem quiet_reject (m m0 : PM) (g : Frame) (rest : List Frame) : Quiet m (m0.reject g rest) := fun h => absurd (status_reject _ _ _) h
-theorem quiet_rejectWith (m m0 : PM) (g : Frame) (rest : List Frame) (c : DiagCls) : Quiet m (m0.rejectWith g rest c) :=
+theorem quiet_reject (m m0 : PM) (g : Frame) (rest : List Frame) : Quiet P m (m0.reject g rest) := fun h => absurd (status_reject _ _ _) h
+theorem quiet_rejectWith (m m0 : PM) (g : Frame) (rest : List Frame) (c : DiagCls) : Quiet P m (m0.rejectWith g rest c) :=
   fun h => absurd (by simp [PM.rejectWith]) h
-theorem quiet_of (m m' : PM) (h : nd m' = nd m) : Quiet m m' := fun _ => h
+theorem quiet_of (m m' : PM) (h : nd P m' = nd P m) : Quiet P m m' := fun _ => h
 
 /-- a store that succeeds is silent -/
 theorem setopt_ok_quiet (orc : Oracle) (k : Nat) (ci : CfgInfo) (o : Opt) (v : Option Bytes) (i : Nat)
@@ -43,7 +47,7 @@ theorem setopt_ok_quiet (orc : Oracle) (k : Nat) (ci : CfgInfo) (o : Opt) (v : O
     refine setOut_ite' (fun s => s.res = some i → s.diags = []) _ _ _ (fun h => by simp at h) (fun _ => rfl)
 
 theorem storeValue_quiet (orc : Oracle) (m : PM) (f : Frame) (rest : List Frame) (v : Bytes) (next : PState) :
-    Quiet m (storeValue orc m f rest v next) := by
+    Quiet P m (storeValue orc m f rest v next) := by
   unfold storeValue
   cases hopt : f.opt with
   | none => exact quiet_reject _ _ _ _
@@ -66,7 +70,7 @@ theorem storeValue_quiet (orc : Oracle) (m : PM) (f : Frame) (rest : List Frame)
           simp only [Option.map_some]
           refine quiet_of _ _ ?_
           rw [hq i hres]
-          show nd (((m.addCalls out.calls).addDiags f1 []).addCalls cs) = nd m
+          show nd P (((m.addCalls out.calls).addDiags f1 []).addCalls cs) = nd P m
           simp
 
 macro "quiet_auto" : tactic =>
@@ -77,52 +81,52 @@ macro "quiet_auto" : tactic =>
                | exact quiet_rejectWith _ _ _ _ _
                | exact quiet_of _ _ rfl))
 
-theorem callFunction_quiet (orc : Oracle) (m : PM) (f : Frame) (rest : List Frame) : Quiet m (callFunction orc m f rest) := by
+theorem callFunction_quiet (orc : Oracle) (m : PM) (f : Frame) (rest : List Frame) : Quiet P m (callFunction orc m f rest) := by
   unfold callFunction
   quiet_auto
 
-theorem step_s1_quiet (orc : Oracle) (m : PM) (f : Frame) (rest : List Frame) (tok : Tok) : Quiet m (step_s1 orc m f rest tok) := by
+theorem step_s1_quiet (orc : Oracle) (m : PM) (f : Frame) (rest : List Frame) (tok : Tok) : Quiet P m (step_s1 orc m f rest tok) := by
   unfold step_s1; quiet_auto
-theorem step_s6_quiet (orc : Oracle) (m : PM) (f : Frame) (rest : List Frame) (tok : Tok) : Quiet m (step_s6 orc m f rest tok) := by
+theorem step_s6_quiet (orc : Oracle) (m : PM) (f : Frame) (rest : List Frame) (tok : Tok) : Quiet P m (step_s6 orc m f rest tok) := by
   unfold step_s6; quiet_auto
-theorem step_s7_quiet (orc : Oracle) (m : PM) (f : Frame) (rest : List Frame) (tok : Tok) : Quiet m (step_s7 orc m f rest tok) := by
+theorem step_s7_quiet (orc : Oracle) (m : PM) (f : Frame) (rest : List Frame) (tok : Tok) : Quiet P m (step_s7 orc m f rest tok) := by
   unfold step_s7; quiet_auto
-theorem step_s10_quiet (orc : Oracle) (m : PM) (f : Frame) (rest : List Frame) (tok : Tok) : Quiet m (step_s10 orc m f rest tok) := by
+theorem step_s10_quiet (orc : Oracle) (m : PM) (f : Frame) (rest : List Frame) (tok : Tok) : Quiet P m (step_s10 orc m f rest tok) := by
   unfold step_s10; quiet_auto
-theorem step_s11_quiet (orc : Oracle) (m : PM) (f : Frame) (rest : List Frame) (tok : Tok) : Quiet m (step_s11 orc m f rest tok) := by
+theorem step_s11_quiet (orc : Oracle) (m : PM) (f : Frame) (rest : List Frame) (tok : Tok) : Quiet P m (step_s11 orc m f rest tok) := by
   unfold step_s11; quiet_auto
-theorem step_s12_quiet (orc : Oracle) (m : PM) (f : Frame) (rest : List Frame) (tok : Tok) : Quiet m (step_s12 orc m f rest tok) := by
+theorem step_s12_quiet (orc : Oracle) (m : PM) (f : Frame) (rest : List Frame) (tok : Tok) : Quiet P m (step_s12 orc m f rest tok) := by
   unfold step_s12; quiet_auto
-theorem step_s13_quiet (orc : Oracle) (m : PM) (f : Frame) (rest : List Frame) (tok : Tok) : Quiet m (step_s13 orc m f rest tok) := by
+theorem step_s13_quiet (orc : Oracle) (m : PM) (f : Frame) (rest : List Frame) (tok : Tok) : Quiet P m (step_s13 orc m f rest tok) := by
   unfold step_s13; quiet_auto
-theorem step_s14_quiet (orc : Oracle) (m : PM) (f : Frame) (rest : List Frame) (tok : Tok) : Quiet m (step_s14 orc m f rest tok) := by
+theorem step_s14_quiet (orc : Oracle) (m : PM) (f : Frame) (rest : List Frame) (tok : Tok) : Quiet P m (step_s14 orc m f rest tok) := by
   unfold step_s14; quiet_auto
 
-theorem step_s2_quiet (orc : Oracle) (m : PM) (f : Frame) (rest : List Frame) (tok : Tok) : Quiet m (step_s2 orc m f rest tok) := by
+theorem step_s2_quiet (orc : Oracle) (m : PM) (f : Frame) (rest : List Frame) (tok : Tok) : Quiet P m (step_s2 orc m f rest tok) := by
   unfold step_s2
   cases tok with
   | str v => exact storeValue_quiet orc m f rest v _
   | _ => quiet_auto
 
-theorem step_s3_quiet (orc : Oracle) (m : PM) (f : Frame) (rest : List Frame) (tok : Tok) : Quiet m (step_s3 orc m f rest tok) := by
+theorem step_s3_quiet (orc : Oracle) (m : PM) (f : Frame) (rest : List Frame) (tok : Tok) : Quiet P m (step_s3 orc m f rest tok) := by
   unfold step_s3
   cases tok with
   | str v => exact storeValue_quiet orc m f rest v _
   | _ => quiet_auto
 
-theorem step_s8_quiet (orc : Oracle) (m : PM) (f : Frame) (rest : List Frame) (tok : Tok) : Quiet m (step_s8 orc m f rest tok) := by
+theorem step_s8_quiet (orc : Oracle) (m : PM) (f : Frame) (rest : List Frame) (tok : Tok) : Quiet P m (step_s8 orc m f rest tok) := by
   unfold step_s8
   cases tok with
   | rparen => exact callFunction_quiet orc m f rest
   | _ => quiet_auto
 
-theorem step_s9_quiet (orc : Oracle) (m : PM) (f : Frame) (rest : List Frame) (tok : Tok) : Quiet m (step_s9 orc m f rest tok) := by
+theorem step_s9_quiet (orc : Oracle) (m : PM) (f : Frame) (rest : List Frame) (tok : Tok) : Quiet P m (step_s9 orc m f rest tok) := by
   unfold step_s9
   cases tok with
   | rparen => exact callFunction_quiet orc m f rest
   | _ => quiet_auto
 
-theorem step_s4_quiet (orc : Oracle) (m : PM) (f : Frame) (rest : List Frame) (tok : Tok) : Quiet m (step_s4 orc m f rest tok) := by
+theorem step_s4_quiet (orc : Oracle) (m : PM) (f : Frame) (rest : List Frame) (tok : Tok) : Quiet P m (step_s4 orc m f rest tok) := by
   unfold step_s4
   cases tok with
   | rbrace =>
@@ -132,7 +136,7 @@ theorem step_s4_quiet (orc : Oracle) (m : PM) (f : Frame) (rest : List Frame) (t
     | some cs => exact quiet_of _ _ rfl
   | _ => quiet_auto
 
-theorem step_s5_quiet (orc : Oracle) (m : PM) (f : Frame) (rest : List Frame) (tok : Tok) : Quiet m (step_s5 orc m f rest tok) := by
+theorem step_s5_quiet (orc : Oracle) (m : PM) (f : Frame) (rest : List Frame) (tok : Tok) : Quiet P m (step_s5 orc m f rest tok) := by
   unfold step_s5
   cases tok with
   | lbrace =>
@@ -172,14 +176,15 @@ theorem depEffect_flag (f : Frame) (h : (depEffect f).1 ≠ []) :
       · exact ⟨r, o, rfl, hget, hd⟩
       · simp [hopt, hget, hd] at h
 
-theorem step_s0_quiet (orc : Oracle) (m : PM) (f : Frame) (rest : List Frame) (tok : Tok) : Quiet m (step_s0 orc m f rest tok) := by
+theorem step_s0_quiet (orc : Oracle) (m : PM) (f : Frame) (rest : List Frame) (tok : Tok)
+    (hdep : ∀ c ∈ (depEffect f).1, P c = true) : Quiet P m (step_s0 orc m f rest tok) := by
   unfold step_s0
   simp only [handleDeprecated_spec]
-  have hd := depEffect_dep f
+  have hd := hdep
   generalize depEffect f = e at hd
   obtain ⟨ds, ev, f'⟩ := e
   simp only [] at hd ⊢
-  have h0 : nd ((m.addDiags f ds).addCalls ev) = nd m := by simp [nd_addDiags_dep _ _ _ hd]
+  have h0 : nd P ((m.addDiags f ds).addCalls ev) = nd P m := by simp [nd_addDiags_dep _ _ _ hd]
   generalize (m.addDiags f ds).addCalls ev = m0 at h0
   cases tok with
   | rbrace =>
@@ -227,10 +232,11 @@ theorem step_s0_quiet (orc : Oracle) (m : PM) (f : Frame) (rest : List Frame) (t
         exact (nd_addDiags_nil m0 f').trans h0
   | _ => exact quiet_rejectWith _ _ _ _ _
 
-theorem quiet_frames (m : PM) (fs : List Frame) (m' : PM) (h : Quiet { m with frames := fs } m') : Quiet m m' := h
+theorem quiet_frames (m : PM) (fs : List Frame) (m' : PM) (h : Quiet P { m with frames := fs } m') : Quiet P m m' := h
 
-theorem dispatch_quiet (orc : Oracle) (m : PM) (f : Frame) (rest : List Frame) (tok : Tok) (nl : Nat) :
-    Quiet m
+theorem dispatch_quiet (orc : Oracle) (m : PM) (f : Frame) (rest : List Frame) (tok : Tok) (nl : Nat)
+    (hdep : ∀ c ∈ (depEffect (f.addLine nl)).1, P c = true) :
+    Quiet P m
       (match f.state with
       | .s0 => step_s0 orc { m with frames := f.addLine nl :: rest } (f.addLine nl) rest tok
       | .s1 => step_s1 orc { m with frames := f.addLine nl :: rest } (f.addLine nl) rest tok
@@ -249,7 +255,7 @@ theorem dispatch_quiet (orc : Oracle) (m : PM) (f : Frame) (rest : List Frame) (
       | .s14 => step_s14 orc { m with frames := f.addLine nl :: rest } (f.addLine nl) rest tok) := by
   apply quiet_frames m (f.addLine nl :: rest)
   cases f.state with
-  | s0 => exact step_s0_quiet orc _ _ rest tok
+  | s0 => exact step_s0_quiet orc _ _ rest tok hdep
   | s1 => exact step_s1_quiet orc _ _ rest tok
   | s2 => exact step_s2_quiet orc _ _ rest tok
   | s3 => exact step_s3_quiet orc _ _ rest tok
@@ -266,13 +272,15 @@ theorem dispatch_quiet (orc : Oracle) (m : PM) (f : Frame) (rest : List Frame) (
   | s14 => exact step_s14_quiet orc _ _ rest tok
 
 /-- **A step that does not reject delivers nothing but deprecation notices.** -/
-theorem pstep_quiet (orc : Oracle) (m : PM) (tok : Tok) (nl : Nat) : Quiet m (pstep orc m tok nl) := by
+theorem pstep_quiet (orc : Oracle) (m : PM) (tok : Tok) (nl : Nat)
+    (hdep : ∀ f ∈ m.frames.head?, ∀ c ∈ (depEffect (f.addLine nl)).1, P c = true) : Quiet P m (pstep orc m tok nl) := by
   by_cases hrun : m.status = .running
   · cases hfr : m.frames with
     | nil =>
       have : pstep orc m tok nl = m := by unfold pstep; simp [hfr]
       rw [this]; exact fun _ => rfl
     | cons f rest =>
+      have hdep := hdep f (by simp [hfr])
       cases tok with
       | err e => rw [pstep_err orc m f rest e nl hrun hfr]; exact quiet_rejectWith _ _ _ _ _
       | eof =>
@@ -281,27 +289,27 @@ theorem pstep_quiet (orc : Oracle) (m : PM) (tok : Tok) (nl : Nat) : Quiet m (ps
         · exact quiet_rejectWith _ _ _ _ _
         · simp only [handleDeprecated_spec]
           refine quiet_of _ _ ?_
-          exact nd_addDiags_dep _ _ _ (depEffect_dep _)
+          exact nd_addDiags_dep _ _ _ hdep
       | comment v =>
         by_cases hs0 : f.state = .s0
         · rw [pstep_running orc m f rest _ nl hrun hfr rfl (Or.inr hs0)]
-          exact dispatch_quiet orc m f rest _ nl
+          exact dispatch_quiet orc m f rest _ nl hdep
         · rw [pstep_comment_skip orc m f rest v nl hrun hfr hs0]
           exact fun _ => rfl
-      | str v => rw [pstep_running orc m f rest _ nl hrun hfr rfl (Or.inl rfl)]; exact dispatch_quiet orc m f rest _ nl
-      | lbrace => rw [pstep_running orc m f rest _ nl hrun hfr rfl (Or.inl rfl)]; exact dispatch_quiet orc m f rest _ nl
-      | rbrace => rw [pstep_running orc m f rest _ nl hrun hfr rfl (Or.inl rfl)]; exact dispatch_quiet orc m f rest _ nl
-      | lparen => rw [pstep_running orc m f rest _ nl hrun hfr rfl (Or.inl rfl)]; exact dispatch_quiet orc m f rest _ nl
-      | rparen => rw [pstep_running orc m f rest _ nl hrun hfr rfl (Or.inl rfl)]; exact dispatch_quiet orc m f rest _ nl
-      | eq => rw [pstep_running orc m f rest _ nl hrun hfr rfl (Or.inl rfl)]; exact dispatch_quiet orc m f rest _ nl
-      | pluseq => rw [pstep_running orc m f rest _ nl hrun hfr rfl (Or.inl rfl)]; exact dispatch_quiet orc m f rest _ nl
-      | comma => rw [pstep_running orc m f rest _ nl hrun hfr rfl (Or.inl rfl)]; exact dispatch_quiet orc m f rest _ nl
+      | str v => rw [pstep_running orc m f rest _ nl hrun hfr rfl (Or.inl rfl)]; exact dispatch_quiet orc m f rest _ nl hdep
+      | lbrace => rw [pstep_running orc m f rest _ nl hrun hfr rfl (Or.inl rfl)]; exact dispatch_quiet orc m f rest _ nl hdep
+      | rbrace => rw [pstep_running orc m f rest _ nl hrun hfr rfl (Or.inl rfl)]; exact dispatch_quiet orc m f rest _ nl hdep
+      | lparen => rw [pstep_running orc m f rest _ nl hrun hfr rfl (Or.inl rfl)]; exact dispatch_quiet orc m f rest _ nl hdep
+      | rparen => rw [pstep_running orc m f rest _ nl hrun hfr rfl (Or.inl rfl)]; exact dispatch_quiet orc m f rest _ nl hdep
+      | eq => rw [pstep_running orc m f rest _ nl hrun hfr rfl (Or.inl rfl)]; exact dispatch_quiet orc m f rest _ nl hdep
+      | pluseq => rw [pstep_running orc m f rest _ nl hrun hfr rfl (Or.inl rfl)]; exact dispatch_quiet orc m f rest _ nl hdep
+      | comma => rw [pstep_running orc m f rest _ nl hrun hfr rfl (Or.inl rfl)]; exact dispatch_quiet orc m f rest _ nl hdep
   · rw [pstep_stopped orc m tok nl hrun]; exact fun _ => rfl
 
 /-- whole token streams: unless the parse ends rejected, every diagnostic it delivered is a
 deprecation notice -/
 theorem parseToks_quiet (orc : Oracle) (ts : List LTok) : ∀ (m : PM), (parseToks orc m ts).status ≠ .rejected →
-    nd (parseToks orc m ts) = nd m := by
+    nd isDep (parseToks orc m ts) = nd isDep m := by
   induction ts with
   | nil => intro m _; rfl
   | cons t ts ih =>
@@ -311,6 +319,6 @@ theorem parseToks_quiet (orc : Oracle) (ts : List LTok) : ∀ (m : PM), (parseTo
     by_cases h1 : (pstep orc m t.1 t.2).status = .rejected
     · rw [parseToks_stopped orc _ ts (by rw [h1]; decide)] at h
       exact absurd h1 h
-    · exact pstep_quiet orc m t.1 t.2 h1
+    · exact pstep_quiet orc m t.1 t.2 (fun f _ => depEffect_dep _) h1
 
 end Confuse
